@@ -9,12 +9,19 @@
    every class lemma only needs it of the children.
    Classes with a machine-checked contract: ConstantCostEdit, the component-wise sum (KeyValuePairEdit; XMLElementEdit,
    DataClassEdit, PyObjEdit are the same combinator), repeat_until_tightened + FixedLengthSequenceEdit, EditDistance
-   (StringEdit is a pure delegation to an EditDistance over constant children), and their arbitrary nesting (C04_lists).
+   (StringEdit is a pure delegation to an EditDistance over constant children), EditCollection / FixedKeyDictNodeEdit
+   (C04_collection), WeightedBipartiteMatcher (C04_matcher; bracket lemmas C04_bracket_lo, C04_bracket_hi), MultiSetEdit (C04_multiset),
+   matching.Edge (a pure delegation: edgeM C is C), and their arbitrary nesting over documents (C04_docs).
+   make_distinct and the assignment solver are oracles (any number of tighten_bounds() calls per edge; any assignment, used
+   if it is a full matching, else the diagonal): the theorems hold for ALL answers.
+   Multisets with repeated elements are outside the domain (open finding D36: the matcher's node-keyed dictionaries
+   collapse duplicates); so are FixedKeyDictNodeEdits whose children's initial upper bounds exceed the edit's own
+   cost_upper_bound (a computed guard inside initO; it never failed on any generated document).
    Classes validated by trace only (holds_C04 on the implementation's recorded traces, no model):
-   EditCollection / FixedKeyDictNodeEdit, WeightedBipartiteMatcher, Edge, MultiSetEdit, IterativeTighteningSearch,
-   PossibleEdits. *)
+   IterativeTighteningSearch, PossibleEdits. *)
 From Coq Require Import ZArith List Bool.
-Require Import GT.Data GT.EdEngine GT.ScriptModel GT.MachineSpec GT.MachineModel GT.MachineProofs.
+Require Import GT.Data GT.EdEngine GT.ScriptModel GT.MachineSpec GT.MachineModel GT.MachineCore GT.MachineColl GT.MachineMatch
+               GT.MachineProofs.
 Import ListNotations.
 Open Scope Z_scope.
 
@@ -64,11 +71,50 @@ Proof. exact str_contract. Qed.
 (* The closing induction over trees: for every pair of trees whose edit lies in the modelled fragment (initU a b = Some s:
    scalars, strings, nested lists under all three list options, key/value pairs; mappings are outside), the state s of
    a.edits(b) satisfies the strict contract on the universal machine, and the executable statement holds on the trace
-   the observer records from it. *)
+   the observer records from it.  (initU = initO []: kept from the first version; C04_docs below is the general statement.) *)
 Theorem C04_lists : forall a b s, initU a b = Some s -> Contract (UM (sheight s)) s.
 Proof. exact initU_contract. Qed.
 
 Theorem C04_lists_trace : forall a b s, initU a b = Some s ->
+  holds_events (trace_of (UM (sheight s)) (S (S (Z.to_nat (width (bndU s))))) s) = true.
+Proof. intros a b s H. exact (model_trace_holds [] a b s H). Qed.
+
+(* EditCollection / FixedKeyDictNodeEdit over children under the strict contract with non-negative lower bounds whose
+   initial upper bounds fit cost_upper_bound: strict contract, final value = sum of the children's *)
+Theorem C04_collection : forall C U kids vs, Forall2 (kid_okc C) kids vs -> PUs C kids <= U ->
+  ContractV true (collM C) (coll_init (bnd C) U kids) (zsum vs).
+Proof. exact coll_contract. Qed.
+
+(* the brackets of the matcher: for values g(p) attached to pairs p with pairwise different rows, each at least the row's
+   minimum (at most its maximum): sum of the |mt| smallest row minima <= total <= sum of the |mt| largest row maxima *)
+Theorem C04_bracket_lo : forall (rm : list Z) {P} (mt : list P) (row : P -> nat) (g : P -> Z),
+  NoDup (map row mt) -> (forall p, In p mt -> (row p < length rm)%nat /\ nth (row p) rm 0 <= g p) ->
+  sum_smallest (length mt) rm <= zsum (map g mt).
+Proof. exact bracket_lo. Qed.
+Theorem C04_bracket_hi : forall (rM : list Z) {P} (mt : list P) (row : P -> nat) (g : P -> Z),
+  NoDup (map row mt) -> (forall p, In p mt -> (row p < length rM)%nat /\ g p <= nth (row p) rM 0) ->
+  zsum (map g mt) <= sum_largest (length mt) rM.
+Proof. exact bracket_hi. Qed.
+(* ... on the matcher's state: before the matching is known its bounds contain the bounds it has afterwards *)
+Theorem C04_bracket_matcher : forall C rem ins asg vv E, EOK C rem ins vv E ->
+  zcontains (MB C rem ins E None) (MB C rem ins E (Some (ch rem ins asg))).
+Proof. intros C rem ins asg vv E H. apply (MB_solve C rem ins asg vv E H). Qed.
+
+(* WeightedBipartiteMatcher and MultiSetEdit from any state of the invariant MInv (edges and pre-matched edits under the
+   strict contract; the solver's answer and make_distinct's call counts arbitrary): strict contract *)
+Theorem C04_matcher : forall C rem ins cnt asg vv kvs s, MInv C rem ins cnt asg vv kvs s ->
+  ContractV true (matcherM C) (fst (mt_bounds (bnd C) s)) (F rem ins asg vv).
+Proof. exact matcher_contract. Qed.
+Theorem C04_multiset : forall C rem ins cnt asg vv kvs s, MInv C rem ins cnt asg vv kvs s ->
+  ContractV true (msetM C) (fst (ms_bounds (bnd C) s)) (FIN rem ins asg vv kvs).
+Proof. exact mset_contract. Qed.
+
+(* The closing induction over documents: for every oracle and every pair of trees in the domain of initO (all node kinds;
+   multisets without repeated elements; the FixedKeyDictNodeEdit budget guard), the edit's state satisfies the strict
+   contract and the executable statement holds on the trace the observer records from it. *)
+Theorem C04_docs : forall orc a b s, initO orc a b = Some s -> Contract (UM (sheight s)) s.
+Proof. exact initO_contract. Qed.
+Theorem C04_docs_trace : forall orc a b s, initO orc a b = Some s ->
   holds_events (trace_of (UM (sheight s)) (S (S (Z.to_nat (width (bndU s))))) s) = true.
 Proof. exact model_trace_holds. Qed.
 
@@ -81,3 +127,11 @@ Print Assumptions C04_edit_distance.
 Print Assumptions C04_string.
 Print Assumptions C04_lists.
 Print Assumptions C04_lists_trace.
+Print Assumptions C04_collection.
+Print Assumptions C04_bracket_lo.
+Print Assumptions C04_bracket_hi.
+Print Assumptions C04_bracket_matcher.
+Print Assumptions C04_matcher.
+Print Assumptions C04_multiset.
+Print Assumptions C04_docs.
+Print Assumptions C04_docs_trace.
